@@ -454,6 +454,18 @@ impl<'a, D: Dialect> RunProgramContext<'a, D> {
                 start_cost: current_cost,
             });
 
+            #[cfg(feature = "verif-hooks")]
+            crate::verif_hooks::emit(crate::verif_hooks::Event::GuardEnter {
+                depth: self.softfork_stack.len(),
+                operator_set: ext as u32,
+                exempt: matches!(ext, OperatorSet::PreHardFork),
+                declared: expected_cost.wrapping_sub(current_cost),
+                cost: current_cost,
+                atoms: self.allocator.atom_count(),
+                pairs: self.allocator.pair_count(),
+                heap: self.allocator.heap_size(),
+            });
+
             // once the softfork guard exits, we need to ensure the cost that was
             // specified match the true cost. We also free heap allocations
             self.op_stack.push(Operation::ExitGuard);
@@ -514,6 +526,19 @@ impl<'a, D: Dialect> RunProgramContext<'a, D> {
             .expect("internal error, softfork program did not push value onto stack");
 
         self.push(self.allocator.nil())?;
+
+        #[cfg(feature = "verif-hooks")]
+        crate::verif_hooks::emit(crate::verif_hooks::Event::GuardExit {
+            depth: self.softfork_stack.len() + 1,
+            cost: current_cost,
+            atoms: self.allocator.atom_count(),
+            pairs: self.allocator.pair_count(),
+            heap: self.allocator.heap_size(),
+            result_is_nil: self
+                .val_stack
+                .last()
+                .is_some_and(|n| n.is_atom() && self.allocator.atom_len(*n) == 0),
+        });
 
         Ok(0)
     }
